@@ -190,7 +190,7 @@ def eval_helper(case):
 
 
 def strat_helper():
-    ints = st.one_of(st.sampled_from([0, 1, 2, 3, 9, 10, 255, 10 ** 6]), st.integers(0, 10 ** 9))
+    ints = st.one_of(st.sampled_from([0, 1, 2, 3, 9, 10, 255, 10 ** 6, 10 ** 70]), st.integers(0, 10 ** 9))
     return st.fixed_dictionaries({'fn': st.sampled_from(sorted(HELPERS)), 'args': st.lists(ints, min_size=2, max_size=2),
                                   'default': st.booleans()})
 
@@ -206,7 +206,18 @@ def self_test():
         'helper table out of date'
 
 
+def strat_long():
+    """sequences with long parameter strings (many codes, large numbers) and helpers' output with huge arguments"""
+    num = st.one_of(st.integers(0, 255).map(str), st.sampled_from(['38;2;255;255;255', '48;2;100;200;250', '58;5;200', '1', '0', '10000000000000000000000']))
+    body = st.lists(num, min_size=8, max_size=40).map(';'.join)
+    final = st.sampled_from(list('mmmHJKA~'))
+    tok = st.one_of(st.text(alphabet='ab m[', max_size=3), st.tuples(body, final).map(lambda t: '\x1b[' + t[0] + t[1]))
+    return st.lists(tok, min_size=1, max_size=4).map(lambda l: {'s': ''.join(l)})
+
+
 SUBS = [
+    Sub('parse_long_params', eval_parse, strategy=strat_long, quick=300, thorough=4000,
+        rule='control sequences whose parameter string is 20-400 characters long'),
     Sub('parse_core_exhaustive', eval_parse, enumerate=enum_core,
         rule='all strings over {ESC,[,1,;,m,A} of length <=5 (quick) / <=7 (thorough) x 8 flag combinations',
         exhaustive_note='every string over the 6-symbol core alphabet up to the length bound'),
